@@ -590,6 +590,43 @@ def rule_no_failure_after_store(ctx):
     r.floor(6)
 
 
+def rule_number_whole_and_fits(ctx):
+    """strtol() returns 0 for an empty string and a `long` for any digit string: `indent_columns = ""` must not store 0, and
+    99999999999 must not be stored into an int as its low 32 bits"""
+    db = ctx.db
+    r = ctx.rule("number-whole-and-fits", "in every read_number<T> instantiation the store of the strtol() result into m_val is controlled by: "
+                 "the end pointer differs from the start (some digits were read), the end pointer is at the terminating NUL, and the value "
+                 "lies between numeric_limits<T>::min() and max(); no strchr() on a possibly empty value (it finds the terminating NUL)")
+    fs = [f for f in _readers(db) if f.qn.split("::")[-1].startswith("read_number")]
+    r.require(len(fs) >= 2, "only %d read_number instantiations" % len(fs))
+    for f in fs:
+        sts = [x for x in f.all_nodes() if x["k"] == "asg" and (f.nodes.get(x["a"][0]) or {}).get("k") == "mem" and f.nodes[x["a"][0]]["n"] == "m_val"
+               and expr_str(f, x["a"][1]).replace("(int)", "").replace("(unsigned int)", "").strip("()") == "val"]
+        r.require(len(sts) == 1, "%s: %d stores of the strtol value" % (f.qn, len(sts)))
+        x = sts[0]
+        cs = [(expr_str(f, cn), pol) for cn, pol in f.guard_conds(f.nblock[x["i"]]) if cn is not None]
+        inst = f.qn.replace("uncrustify::", "")
+        r.check(("c != in", True) in cs or ("in != c", True) in cs or ("c == in", False) in cs, inst + "/some-digits-read", db.loc(f, x),
+                "the value is stored although strtol() may have read nothing (empty value = 0): facts %s" % cs)
+        r.check(("*c == 0", True) in cs or ("*c != 0", False) in cs, inst + "/whole-value-read", db.loc(f, x), "the value is stored although text follows the number: facts %s" % cs)
+        lo = any(pol is True and "numeric_limits" in c and "min()" in c and ">=" in c for c, pol in cs)
+        hi = any(pol is True and "numeric_limits" in c and "max()" in c and "<=" in c for c, pol in cs)
+        r.check(lo and hi, inst + "/fits-the-option-type", db.loc(f, x), "the long value is cast to the option's type without a range test against numeric_limits: facts %s" % cs)
+    n_sc = 0
+    for f in _readers(db):
+        for n in f.all_nodes():
+            if n["k"] == "call" and (n.get("c") or "").replace("std::", "") == "strchr" and len(n.get("a", ())) == 2:
+                n_sc += 1
+                r.seen()
+                xs = expr_str(f, n["a"][1])
+                cs = [(expr_str(f, cn), pol) for cn, pol in f.guard_conds(f.nblock[n["i"]]) if cn is not None]
+                ok = any((c in (xs + " != 0", xs) and pol is True) or (c in (xs + " == 0", "!" + xs) and pol is False) for c, pol in cs)
+                r.check(ok, f.qn.replace("uncrustify::", "") + "/strchr(.., %s)" % xs, db.loc(f, n),
+                        "strchr() also finds the terminating NUL: for an empty value `%s` is 0, the test succeeds and the reader steps past "
+                        "the end of the string" % xs)
+    r.floor(6)
+
+
 def rule_diagnostic_names_file(ctx):
     """a diagnostic "names the file, line and option": the file is the one load_option_file() is reading - for a line of an
     included file not the top-level config (found on the pinned tree; repaired)"""
@@ -632,4 +669,4 @@ def rule_diagnostic_names_file(ctx):
     r.floor(3)
 
 
-RULES = [rule_store_after_validate, rule_fail_warns, rule_no_silent_line, rule_no_throw, rule_unsigned_bounded, rule_nl_max_guard, rule_bounded_recursion, rule_diagnostic_names_file, rule_no_failure_after_store]
+RULES = [rule_store_after_validate, rule_fail_warns, rule_no_silent_line, rule_no_throw, rule_unsigned_bounded, rule_nl_max_guard, rule_bounded_recursion, rule_diagnostic_names_file, rule_no_failure_after_store, rule_number_whole_and_fits]
